@@ -85,7 +85,10 @@ func genQuery(r *Rng, m *qMeta) []string {
 	G := m.Groups
 	small := !m.Big
 	for {
-		switch r.Intn(50) {
+		switch r.Intn(52) {
+		case 50, 51:
+			// DISTINCT inside aggregates: which of several equal values is kept, and in which order
+			return []string{"SELECT LISTAGG(DISTINCT s, ','), JSON_AGG(DISTINCT v), SUM(DISTINCT v * 0.1), AVG(DISTINCT v / 3.0) FROM a;", "SELECT g, LISTAGG(DISTINCT s, '|'), JSON_AGG(DISTINCT s), COUNT(DISTINCT s), usum(DISTINCT v) FROM a GROUP BY g;", "SELECT LISTAGG(DISTINCT s, ',') WITHIN GROUP (ORDER BY s) FROM a;", "SELECT id, LISTAGG(DISTINCT s, ',') OVER (PARTITION BY g) AS l FROM a;"}
 		case 45:
 			// ties without a tie-breaker: the order of equal keys must not depend on the workers
 			return []string{"SELECT id, g FROM a ORDER BY g;", "SELECT id, v FROM a ORDER BY v DESC LIMIT 7;", "SELECT id, RANK() OVER (PARTITION BY g ORDER BY v) AS rk, FIRST_VALUE(s) OVER (PARTITION BY g ORDER BY v) AS fv, LAST_VALUE(id) OVER (PARTITION BY g ORDER BY v) AS lv FROM a;"}
